@@ -3,6 +3,7 @@ import Just.Model.Run
 import Just.Model.Signals
 import Just.Model.Args
 import Just.Model.EnvExport
+import Just.Model.Channels
 import Just.Model.Workdir
 import Just.Model.Search
 import Just.Model.Dotenv
@@ -48,6 +49,10 @@ end Just.Args
 namespace Just.EnvExport
 deriving instance FromJson, ToJson for Binding
 end Just.EnvExport
+
+namespace Just.Channels
+deriving instance FromJson, ToJson for NParam
+end Just.Channels
 
 namespace Just.Workdir
 deriving instance FromJson, ToJson for Rel
